@@ -8,11 +8,18 @@ package main
 import (
 	"bytes"
 	"context"
+	"crypto/ecdsa"
+	"crypto/elliptic"
+	crand "crypto/rand"
+	"crypto/tls"
+	"crypto/x509"
+	"crypto/x509/pkix"
 	"encoding/hex"
 	"encoding/json"
 	"flag"
 	"fmt"
 	"io"
+	"math/big"
 	"math/rand"
 	"net"
 	"net/http"
@@ -21,6 +28,7 @@ import (
 	"path/filepath"
 	"regexp"
 	"strings"
+	"sync"
 	"syscall"
 	"time"
 )
@@ -168,8 +176,26 @@ func delayedLoggerOverlay(tmp string) (string, error) {
 	return ovf, nil
 }
 
+// lockedBuffer is a bytes.Buffer that can be read while the process is still writing to it.
+type lockedBuffer struct {
+	mu sync.Mutex
+	b  bytes.Buffer
+}
+
+func (l *lockedBuffer) Write(p []byte) (int, error) {
+	l.mu.Lock()
+	defer l.mu.Unlock()
+	return l.b.Write(p)
+}
+func (l *lockedBuffer) Len() int { l.mu.Lock(); defer l.mu.Unlock(); return l.b.Len() }
+func (l *lockedBuffer) Bytes() []byte {
+	l.mu.Lock()
+	defer l.mu.Unlock()
+	return append([]byte{}, l.b.Bytes()...)
+}
+
 func runC16(res *result) error {
-	res.Rule = "the real rtcmlogger binary built from /repo: stdin fed in random chunks (empty, shorter and longer than the 8096-byte block, binary; also long runs of one byte and a constant message written again and again, one per write; also standard input as a regular file of 64 KiB to 1 MiB; the event log switched on in half of the runs), stdout and the day's record file compared with the " +
+	res.Rule = "the real rtcmlogger binary built from /repo: stdin fed in random chunks (empty, shorter and longer than the 8096-byte block, binary; also long runs of one byte and a constant message written again and again, one per write; also standard input as a regular file of 64 KiB to 1 MiB; the event log switched on in half of the runs, with and without a directory configured for it; a burst of exactly 1, 2 or 4 read blocks followed by silence with the input still open, which must come out within 5 s), stdout and the day's record file compared with the " +
 		"input after the process has exited; also a build with a 40 ms delay before the recorder's write (overlay), which makes a missing wait deterministic; non-trivial = non-empty input; distinct = distinct input"
 	tmp, err := os.MkdirTemp("", "verif-c16")
 	if err != nil {
@@ -230,6 +256,14 @@ func runC16(res *result) error {
 			data = make([]byte, []int{65536, 65537, 131072, 200000, 1 << 20}[r.Intn(5)])
 			r.Read(data)
 		}
+		// a live source: a burst of exactly one, two or four read blocks, then silence with standard
+		// input still open - the burst must come out of standard output without waiting for more input
+		live := i%6 == 1 && i >= len(sizes)
+		if live {
+			content = "live-burst-then-silence"
+			data = make([]byte, 8096*[]int{1, 2, 4}[r.Intn(3)])
+			r.Read(data)
+		}
 		size = len(data)
 		variant := "plain"
 		if _, ok := bins["delayed-recorder"]; ok && i%2 == 1 {
@@ -239,7 +273,11 @@ func runC16(res *result) error {
 		os.MkdirAll(dir, 0o755)
 		cfg := filepath.Join(dir, "cfg.json")
 		logEvents := i%2 == 0 && i >= len(sizes)
-		os.WriteFile(cfg, []byte(fmt.Sprintf(`{"log_events": %v, "message_log_directory": %q, "event_log_directory": %q}`, logEvents, dir, dir)), 0o644)
+		eventDir := dir
+		if logEvents && i%4 == 2 {
+			eventDir = "" // events on, no directory configured for them
+		}
+		os.WriteFile(cfg, []byte(fmt.Sprintf(`{"log_events": %v, "message_log_directory": %q, "event_log_directory": %q}`, logEvents, dir, eventDir)), 0o644)
 		cmd := exec.Command(bins[variant], "-c", cfg)
 		cmd.Dir = dir
 		var stdin io.WriteCloser
@@ -252,14 +290,27 @@ func runC16(res *result) error {
 		} else {
 			stdin, _ = cmd.StdinPipe()
 		}
-		var stdout bytes.Buffer
+		var stdout lockedBuffer
 		cmd.Stdout = &stdout
 		fail := ""
+		liveFail := make(chan string, 1)
 		if err := cmd.Start(); err != nil {
 			return err
 		}
 		go func() {
 			if fromFile {
+				return
+			}
+			if live {
+				stdin.Write(data)
+				deadline := time.Now().Add(5 * time.Second)
+				for stdout.Len() < len(data) && time.Now().Before(deadline) {
+					time.Sleep(10 * time.Millisecond)
+				}
+				if n := stdout.Len(); n < len(data) {
+					liveFail <- fmt.Sprintf("5 s after a burst of %d bytes, with standard input still open, standard output had received %d of them", len(data), n)
+				}
+				stdin.Close()
 				return
 			}
 			rest := data
@@ -300,6 +351,8 @@ func runC16(res *result) error {
 				rec = append(rec, b...)
 			}
 			switch {
+			case len(liveFail) > 0:
+				fail = <-liveFail
 			case !bytes.Equal(stdout.Bytes(), data):
 				fail = fmt.Sprintf("standard output has %d bytes, standard input had %d", stdout.Len(), len(data))
 			case !bytes.Equal(rec, data):
@@ -403,7 +456,7 @@ func traffic(r *rand.Rand, kind string, count int) []byte {
 
 func runC19(res *result) error {
 	res.Rule = "the real proxy binary built from /repo between a test client and a test upstream server on TCP loopback: client-to-server and server-to-client byte streams (valid frames, CRC-valid frames with " +
-		"malformed content, random bytes, payloads and non-RTCM data containing '<' and '>') in random chunkings, as single bursts of several read buffers, and as single bursts of exactly 1..3 times 1024/2048/4096/8192 bytes followed by silence; every fourth run the server half-closes after its answer and the client sends afterwards; one run in eight has a server that stops reading for 3 s while 6 MiB are on their way (the proxy's writes block); one run in eight has a client that only listens while the server pauses for 12 s (thorough 65 s) in mid-answer; both directions compared byte for byte; in verbose runs the message log " +
+		"malformed content, random bytes, payloads and non-RTCM data containing '<' and '>') in random chunkings, as single bursts of several read buffers, and as single bursts of exactly 1..3 times 1024/2048/4096/8192 bytes followed by silence; every fourth run the server half-closes after its answer and the client sends afterwards; one run in eight has a server that stops reading for 3 s while 6 MiB are on their way (the proxy's writes block); one run in eight has a client that only listens while the server pauses for 12 s (thorough 65 s) in mid-answer; plus sessions through the proxy in TLS mode in which a TLS 1.2 client sends its last burst and hangs up at once; both directions compared byte for byte; in verbose runs the message log " +
 		"(raw bytes of every message the parser produced, i.e. what the report lists) must be a prefix of the relayed client stream and, for streams of valid frames, all of it; /status/report fetched and the number of '<'/'>' in the body " +
 		"compared with the number the page has when the traffic contains no markup at all; non-trivial = at least 100 bytes relayed; distinct = distinct traffic"
 	tmp, err := os.MkdirTemp("", "verif-c19")
@@ -731,7 +784,105 @@ func runC19(res *result) error {
 		res.record(kind, fmt.Sprintf("proxy kind=%s c2s=%s s2c=%d bytes", kind, hex.EncodeToString(c2s[:min(len(c2s), 60)]), len(s2c)), outcome, len(c2s) >= 100, fail)
 		os.RemoveAll(dir)
 	}
+	// TLS mode: the proxy terminates TLS towards the client (with a certificate it makes itself) and
+	// speaks TLS to the server.  A TLS 1.2 peer that sends its last burst and hangs up at once
+	// delivers the data and the end of the stream to the proxy in the same read.
+	for k := 0; k < n(2, 6); k++ {
+		runTLSSession(bin, tmp, res, r, k)
+	}
 	return nil
+}
+
+// selfSigned makes a throw-away certificate for the test upstream server.
+func selfSigned() (tls.Certificate, error) {
+	key, err := ecdsa.GenerateKey(elliptic.P256(), crand.Reader)
+	if err != nil {
+		return tls.Certificate{}, err
+	}
+	tmpl := x509.Certificate{SerialNumber: big.NewInt(1), Subject: pkix.Name{CommonName: "verif upstream"},
+		NotBefore: time.Now().Add(-time.Hour), NotAfter: time.Now().Add(24 * time.Hour),
+		KeyUsage: x509.KeyUsageDigitalSignature, ExtKeyUsage: []x509.ExtKeyUsage{x509.ExtKeyUsageServerAuth},
+		IPAddresses: []net.IP{net.ParseIP("127.0.0.1")}}
+	der, err := x509.CreateCertificate(crand.Reader, &tmpl, &tmpl, &key.PublicKey, key)
+	if err != nil {
+		return tls.Certificate{}, err
+	}
+	return tls.Certificate{Certificate: [][]byte{der}, PrivateKey: key}, nil
+}
+
+func runTLSSession(bin, tmp string, res *result, r *rand.Rand, k int) {
+	cert, err := selfSigned()
+	if err != nil {
+		res.Notes = append(res.Notes, "TLS session skipped: "+err.Error())
+		return
+	}
+	inner, _ := net.Listen("tcp", "127.0.0.1:0")
+	up := tls.NewListener(inner, &tls.Config{Certificates: []tls.Certificate{cert}})
+	defer up.Close()
+	upPort := inner.Addr().(*net.TCPAddr).Port
+	proxyPort, ctlPort := freePorts()
+	dir := filepath.Join(tmp, fmt.Sprintf("tls%d", k))
+	os.MkdirAll(dir, 0o755)
+	defer os.RemoveAll(dir)
+	cfg := filepath.Join(dir, "proxy.json")
+	os.WriteFile(cfg, []byte(fmt.Sprintf(`{"remote_host": "127.0.0.1:%d", "proxy_host": "127.0.0.1", "proxy_port": %d, "control_host": "127.0.0.1", "control_port": %d, "tls": {"country": ["GB"], "org": ["verif"], "common_name": "127.0.0.1"}, "record_messages": true, "message_log_directory": %q}`,
+		upPort, proxyPort, ctlPort, filepath.Join(dir, "logs"))), 0o644)
+	cmd := exec.Command(bin, "-c", cfg, "-s", "-q")
+	cmd.Dir = dir
+	var perr bytes.Buffer
+	cmd.Stdout = io.Discard
+	cmd.Stderr = &perr
+	if err := cmd.Start(); err != nil {
+		res.Notes = append(res.Notes, "TLS session skipped: "+err.Error())
+		return
+	}
+	defer func() { cmd.Process.Kill(); cmd.Wait() }()
+	c2s := traffic(r, []string{"valid-frames", "random-bytes"}[k%2], 1+r.Intn(3))
+	s2c := traffic(r, "valid-frames", 1)
+	gotUp := make(chan []byte, 1)
+	go func() {
+		conn, err := up.Accept()
+		if err != nil {
+			gotUp <- nil
+			return
+		}
+		defer conn.Close()
+		conn.Write(s2c)
+		conn.SetReadDeadline(time.Now().Add(10 * time.Second))
+		b, _ := io.ReadAll(conn)
+		gotUp <- b
+	}()
+	var conn *tls.Conn
+	for try := 0; try < 150; try++ {
+		conn, err = tls.Dial("tcp", fmt.Sprintf("127.0.0.1:%d", proxyPort), &tls.Config{InsecureSkipVerify: true, MaxVersion: tls.VersionTLS12})
+		if err == nil {
+			break
+		}
+		time.Sleep(30 * time.Millisecond)
+	}
+	fail := ""
+	kind := fmt.Sprintf("tls-1.2-client-hangs-up-at-once/%d-bytes", len(c2s))
+	if conn == nil {
+		res.Notes = append(res.Notes, "TLS session skipped: cannot connect to the proxy in TLS mode: "+lastLines(perr.String(), 3))
+		return
+	}
+	// read the server's greeting, then send the last burst and hang up at once
+	conn.SetReadDeadline(time.Now().Add(10 * time.Second))
+	greeting := make([]byte, len(s2c))
+	if _, err := io.ReadFull(conn, greeting); err != nil || !bytes.Equal(greeting, s2c) {
+		fail = fmt.Sprintf("the client did not receive the server's %d bytes through the TLS proxy (%v)", len(s2c), err)
+	}
+	conn.Write(c2s)
+	conn.Close()
+	upstream := <-gotUp
+	if fail == "" && !bytes.Equal(upstream, c2s) {
+		fail = fmt.Sprintf("the upstream server received %d bytes, the client sent %d and hung up (TLS 1.2: the last data and the end of the stream arrive together)", len(upstream), len(c2s))
+	}
+	outcome := "ok"
+	if fail != "" {
+		outcome = "fail"
+	}
+	res.record(kind, fmt.Sprintf("proxy-tls run=%d c2s=%s", k, hex.EncodeToString(c2s[:min(len(c2s), 60)])), outcome, true, fail)
 }
 
 func firstDiff(a, b []byte) int {
